@@ -2,6 +2,7 @@ package vc
 
 import (
 	"fmt"
+	"os"
 	"go/ast"
 	"go/token"
 	"go/types"
@@ -511,19 +512,17 @@ func (vc *VC) dispatch(fr *frame, st *State, it *types.Interface, m *types.Func,
 		any = Or(any, cond)
 		sub := st.clone()
 		sub.pc = vc.newPC(st, cond)
-		// receiver value
-		var rv Val
+		// receiver value: unbox the dynamic value and follow the promotion path to the method's receiver
 		msig := mf.Type().(*types.Signature)
 		_, wantPtr := msig.Recv().Type().Underlying().(*types.Pointer)
 		_, implPtr := impl.(*types.Pointer)
-		switch {
-		case wantPtr && implPtr:
-			// method may be promoted from an embedded struct: compute the embedded ref
-			rv = vc.promoteRecv(sub, impl.(*types.Pointer).Elem(), m.Name(), IVal(recv))
-		case !wantPtr && implPtr:
-			rv = vc.promoteRecvValue(sub, impl.(*types.Pointer).Elem(), msig.Recv().Type(), m.Name(), IVal(recv))
-		default:
-			rv = vc.fromIface(sub, recv, impl)
+		rv, okRecv := vc.resolveRecv(sub, impl, m, IVal(recv), recv, wantPtr, msig.Recv().Type())
+		if !okRecv {
+			vc.errorf(c.Pos(), "cannot resolve receiver of %s on %s", m.Name(), impl)
+			continue
+		}
+		if os.Getenv("GOVC_DEBUG") != "" {
+			fmt.Fprintf(os.Stderr, "dispatch %s impl=%s wantPtr=%v implPtr=%v rv=%T\n", m.Name(), impl, wantPtr, implPtr, rv)
 		}
 		v := vc.callFunc(fr, sub, &FuncV{Fn: fi, Recv: rv}, args, c)
 		if sub.pc.S == "false" {
@@ -1087,3 +1086,73 @@ func (vc *VC) stdlibModel(fr *frame, st *State, fo *types.Func, recv Val, args [
 }
 
 var _ = strings.HasPrefix
+
+// resolveRecv computes the receiver argument for method m called on a dynamic value of type impl
+// stored in an interface (payload ref / boxed value), following embedded fields.
+func (vc *VC) resolveRecv(st *State, impl types.Type, m *types.Func, payload Term, iface Term, wantPtr bool, recvT types.Type) (Val, bool) {
+	_, path, _ := types.LookupFieldOrMethod(impl, true, m.Pkg(), m.Name())
+	if len(path) == 0 {
+		return nil, false
+	}
+	path = path[:len(path)-1]
+	// current position: either a ref to a struct of type cur, or a struct rvalue
+	var cur types.Type
+	var ref Term
+	var sv *StructV
+	haveRef := false
+	if pt, ok := impl.(*types.Pointer); ok {
+		cur, ref, haveRef = pt.Elem(), payload, true
+	} else if structOf(impl) != nil {
+		cur = impl
+		sv = vc.loadStruct(st, impl, payload)
+	} else {
+		// non-struct named type stored by value
+		if len(path) == 0 {
+			return vc.fromIface(st, iface, impl), true
+		}
+		return nil, false
+	}
+	for _, i := range path {
+		s := structOf(cur)
+		if s == nil {
+			return nil, false
+		}
+		ft := s.Field(i).Type()
+		var fv Val
+		if haveRef {
+			if structOf(ft) != nil {
+				ref = vc.subRef(cur, i, ref)
+				cur = ft
+				continue
+			}
+			fv = vc.loadField(st, cur, i, ref)
+		} else {
+			fv = sv.F[i]
+		}
+		if pt, ok := ft.Underlying().(*types.Pointer); ok {
+			ref, haveRef, cur = vc.term(fv), true, pt.Elem()
+			continue
+		}
+		if inner, ok := fv.(*StructV); ok {
+			sv, haveRef, cur = inner, false, ft
+			continue
+		}
+		return nil, false
+	}
+	if wantPtr {
+		if !haveRef {
+			return nil, false
+		}
+		return ref, true
+	}
+	if structOf(recvT) != nil {
+		if haveRef {
+			return vc.loadStruct(st, recvT, ref), true
+		}
+		return sv, true
+	}
+	if haveRef {
+		return ref, true
+	}
+	return nil, false
+}
